@@ -22,14 +22,14 @@ func refInteropUnit(libIsClient bool, suite uint16) harness.Unit {
 	return harness.Unit{Name: fmt.Sprintf("reference-peer-interop/library-client=%v/%04x", libIsClient, suite), Run: func(c *harness.Ctx) {
 		p := tlsk.Get()
 		policies := []gmtls.ClientAuthType{gmtls.NoClientCert, gmtls.RequestClientCert, gmtls.RequireAnyClientCert, gmtls.VerifyClientCertIfGiven, gmtls.RequireAndVerifyClientCert}
-		for _, frag := range []int{0, 1, 7, 100} {
+		for _, frag := range []int{0, 1, 7, 100, -1} { // -1: the peer packs each flight's handshake messages into one record
 			for _, pol := range policies {
 				for _, withCert := range []bool{false, true} {
 					for _, auto := range []bool{false, true} {
 						if libIsClient && (auto || (pol != gmtls.NoClientCert && pol != gmtls.RequestClientCert)) {
 							continue // the scripted server only asks or does not ask
 						}
-						payloadC, payloadS := pu.Msg(frag+1, 3000+frag), pu.Msg(frag+2, 70000)
+						payloadC, payloadS := pu.Msg(frag+2, 3000+frag), pu.Msg(frag+3, 70000)
 						var cfg *gmtls.Config
 						var id gmref.Identity
 						needCert := pol == gmtls.RequireAnyClientCert || pol == gmtls.RequireAndVerifyClientCert
@@ -94,7 +94,11 @@ func refInteropUnit(libIsClient bool, suite uint16) harness.Unit {
 								q.UseTLS()
 							}
 							q.Suites = []uint16{suite}
-							q.Fragment = frag
+							if frag < 0 {
+								q.Coalesce = true
+							} else {
+								q.Fragment = frag
+							}
 							q.RequestCert = pol != gmtls.NoClientCert
 							if q.RequestCert && !tlsMode {
 								q.CAs = [][]byte{p.CA.RawSubject}
